@@ -172,10 +172,16 @@ func ParseSPSNALUnit(data []byte, parseVUIBeyondAspectRatio bool) (*SPS, error) 
 	}
 
 	sps.Log2MaxFrameNumMinus4 = reader.ReadExpGolomb()
+	if sps.Log2MaxFrameNumMinus4 > 12 { // Gives the number of bits of frame_num in the slice header
+		return nil, fmt.Errorf("log2_max_frame_num_minus4 %d is not in range 0 to 12", sps.Log2MaxFrameNumMinus4)
+	}
 	sps.PicOrderCntType = reader.ReadExpGolomb()
 	switch sps.PicOrderCntType {
 	case 0:
 		sps.Log2MaxPicOrderCntLsbMinus4 = reader.ReadExpGolomb()
+		if sps.Log2MaxPicOrderCntLsbMinus4 > 12 { // Gives the number of bits of pic_order_cnt_lsb in the slice header
+			return nil, fmt.Errorf("log2_max_pic_order_cnt_lsb_minus4 %d is not in range 0 to 12", sps.Log2MaxPicOrderCntLsbMinus4)
+		}
 	case 1:
 		sps.DeltaPicOrderAlwaysZeroFlag = reader.ReadFlag()
 		sps.OffsetForNonRefPic = reader.ReadExpGolomb()
